@@ -734,6 +734,17 @@ class Extractor:
 
     def x_With(self, s, rest, st):
         for item in s.items:
+            # a context manager whose __exit__ is code of the package decides what happens to an
+            # exception of the body (replace it, swallow it): the block is not "its statements in a row"
+            ce = item.context_expr
+            nm = None
+            if isinstance(ce, ast.Call):
+                nm = call_name(ce)
+            elif isinstance(ce, ast.Name):
+                b = st.env.get(ce.id)
+                nm = call_name(b) if isinstance(b, ast.Call) else None
+            if nm and nm.split('.')[-1] in PACKAGE_CONTEXT_MANAGERS:
+                raise Undecided('the block is run under %s, a context manager of the package: what its __exit__ does with a failure of the block is not modelled' % nm)
             v = self.ev(item.context_expr, st)
             if item.optional_vars is not None:
                 self.assign(item.optional_vars, v, st)
@@ -1054,6 +1065,10 @@ def method_callee(repo, cls, module=None):
                 return fi.node, None
         return None
     return resolve
+
+
+# classes of the analysed package that define __exit__ (set when a Repo is loaded)
+PACKAGE_CONTEXT_MANAGERS = set()
 
 
 def extract(func, classifier, bind=None, callee=None):
